@@ -137,22 +137,22 @@ def gen_strategy(rng, valid=False):
 def strategy_env(a):
     t = a["type"]
     if t == "api_key":
-        return "apiKey", {"str": {"c.In": hx(a["in"]), "c.Name": hx(a["name"]), "c.Value": hx(a["value"])}}
+        return "apiKey", {"str": {"recv.In": hx(a["in"]), "recv.Name": hx(a["name"]), "recv.Value": hx(a["value"])}}
     if t == "basic_auth":
-        return "basicAuth", {"str": {"c.User": hx(a["user"]), "c.Password": hx(a["password"])}}
+        return "basicAuth", {"str": {"recv.User": hx(a["user"]), "recv.Password": hx(a["password"])}}
     if t == "http_message_signatures":
-        env = {"str": {"s.Label": hx(a["label"]), "s.Signer.Name": hx(a["name"]), "s.Signer.KeyID": hx(a["key_id"]),
-                       "u64 *s.TTL": hx(le64(a["ttl"])) if "ttl" in a else ""},
-               "lst": {"s.Components": [hx(c) for c in a["components"]]},
-               "has": {"s.TTL != nil": "ttl" in a}, "num": {"*s.TTL": a.get("ttl", 0)}}
+        env = {"str": {"recv.Label": hx(a["label"]), "recv.Signer.Name": hx(a["name"]), "recv.Signer.KeyID": hx(a["key_id"]),
+                       "u64 *recv.TTL": hx(le64(a["ttl"])) if "ttl" in a else ""},
+               "lst": {"recv.Components": [hx(c) for c in a["components"]]},
+               "has": {"recv.TTL != nil": "ttl" in a}, "num": {"*recv.TTL": a.get("ttl", 0)}}
         return "httpMessageSignatures", env
     return "clientCredentialsHash", cc_env(a)
 
 
 def cc_env(a):
-    return {"str": {"c.ClientID": hx(a["client_id"]), "c.ClientSecret": hx(a["client_secret"]),
-                    "c.TokenURL": hx(a["token_url"])},
-            "lst": {"c.Scopes": [hx(s) for s in a["scopes"]]}}
+    return {"str": {"recv.ClientID": hx(a["client_id"]), "recv.ClientSecret": hx(a["client_secret"]),
+                    "recv.TokenURL": hx(a["token_url"])},
+            "lst": {"recv.Scopes": [hx(s) for s in a["scopes"]]}}
 
 
 def gen_endpoint(rng, valid=False, path="/e", tpl_vals=None):
@@ -183,12 +183,12 @@ def endpoint_env(ep, srv=SRV, defaults=None, method_default=None):
     for k, v in (defaults or {}).items():
         hdrs.setdefault(k, v)
     method = ep.get("method", "") or (method_default or "")
-    env = {"str": {"e.URL": hx(ep["url"].replace(SRV, srv)), "e.Method": hx(method)},
-           "map": {"e.Headers": [[hx(k), hx(v)] for k, v in hdrs.items()]},
-           "has": {"e.AuthStrategy != nil": "auth" in ep}}
+    env = {"str": {"recv.URL": hx(ep["url"].replace(SRV, srv)), "recv.Method": hx(method)},
+           "map": {"recv.Headers": [[hx(k), hx(v)] for k, v in hdrs.items()]},
+           "has": {"recv.AuthStrategy != nil": "auth" in ep}}
     if "auth" in ep:
         fn, senv = strategy_env(ep["auth"])
-        env["sub"] = {"e.AuthStrategy.Hash()": {"fn": fn, "env": senv}}
+        env["sub"] = {"recv.AuthStrategy.Hash()": {"fn": fn, "env": senv}}
     return env
 
 
@@ -251,8 +251,7 @@ def gen_plain0(rng, fn):
         return {"token_url": rng.choice(["http://t/a", "http://t/", "http://t/ab", "t"]), "client_id": rng.choice(WORDS),
                 "client_secret": rng.choice(WORDS), "scopes": [rng.choice(WORDS[:9]) for _ in range(rng.choice([0, 1, 2, 3]))]}
     if fn == "jwtSigner":
-        return {"kid": rng.choice(WORDS + ["kE", "kES256"]), "alg": rng.choice(["ES256", "RS256", "S256", "PS384", ""]),
-                "iss": rng.choice(WORDS + ["heimdall", "ES256b"])}
+        return {"kid": rng.choice(WORDS + ["kE", "kES256"]), "iss": rng.choice(WORDS + ["heimdall", "ES256b"])}
     if fn == "subject":
         return gen_subject(rng)
     if fn == "template":
@@ -273,18 +272,22 @@ def plain_env(fn, cfg, obs=None, srv=SRV):
     if fn in ("clientCredentialsHash", "clientCredentialsKey"):
         return cc_env(cfg)
     if fn == "jwtSigner":
-        return {"str": {"jwk.KeyID": hx(cfg["kid"]), "jwk.Algorithm": hx(cfg["alg"]), "s.iss": hx(cfg["iss"]),
-                        "jwk.Thumbprint(crypto.SHA256)": ""}}
+        o = obs or {}
+        return {"str": {"recv.jwk.KeyID": o.get("jwk.KeyID", [""])[0], "recv.jwk.Algorithm": o.get("jwk.Algorithm", [""])[0],
+                        "recv.iss": hx(cfg["iss"] or "heimdall"),
+                        "recv.jwk.Thumbprint(crypto.SHA256)": o.get("jwk.Thumbprint(crypto.SHA256)", [""])[0]}}
     if fn == "subject":
-        return {"str": {"json.Marshal(s)": (obs or {}).get("json.Marshal(s)", [""])[0]}}
+        return {"str": {"json.Marshal(recv)": (obs or {}).get("json.Marshal(s)", [""])[0]}}
     if fn == "template":
-        return {"str": {"val": hx(cfg["val"])}}
+        return {"str": {"arg0": hx(cfg["val"])}}
     if fn == "httpCache":
         auth = cfg.get("authorization", "").strip()
-        return {"str": {'"RFC 7234"': hx("RFC 7234"), "req.URL.String()": hx(cfg["url"]), "req.Method": hx(cfg["method"]),
-                        'strings.TrimSpace(req.Header.Get("Authorization"))': hx(auth),
-                        "strings.TrimSpace(value)": hx(auth)},
-                "has": {"len(value) != 0": len(cfg.get("authorization", "")) != 0}}
+        hdrs = dict(cfg.get("headers") or {})
+        if "authorization" in cfg:
+            hdrs["Authorization"] = cfg["authorization"]
+        return {"str": {"arg0.URL.String()": hx(cfg["url"]), "arg0.Method": hx(cfg["method"]),
+                        'strings.TrimSpace(arg0.Header.Get("Authorization"))': hx(auth)},
+                "map": {"headerFields(arg0.Header)": [[hx(k), hx(v)] for k, v in hdrs.items()]}}
     raise ValueError(fn)
 
 
@@ -301,7 +304,7 @@ ADJ = {
     "httpMessageSignatures": [(("name",), ("key_id",))],
     "clientCredentialsHash": [(("client_id",), ("client_secret",)), (("client_secret",), ("token_url",))],
     "clientCredentialsKey": [(("client_id",), ("client_secret",)), (("client_secret",), ("token_url",))],
-    "jwtSigner": [(("kid",), ("alg",)), (("alg",), ("iss",))],
+    "jwtSigner": [(("kid",), ("iss",))],
 }
 
 
@@ -425,7 +428,7 @@ def gen_mech(rng, kind):
                 if rng.random() < 0.2:
                     o["cache_ttl"] = rng.choice(["7m", "1h"])
             elif r < 0.8:    # a variant that leaves the assertions (and the key) alone
-                o = {"cache_ttl": rng.choice(["7m", "1h"])}
+                o = {"cache_ttl": rng.choice(["7m", "1h", "0s"])}
             else:
                 o = {"allow_fallback_on_error": True}
             m["overrides"].append(o)
@@ -435,17 +438,22 @@ def gen_mech(rng, kind):
         if rng.random() < 0.5:      # one key set per issuer
             ep["url"] = SRV + "/jwks/{{.TokenIssuer}}"
         m["ep"] = ep
-        m["ttl"] = rng.choice(["10m", None])
+        m["ttl"] = rng.choice(["10m", None, "0s"])
+        for _ in range(rng.choice([0, 1, 2])):
+            m["overrides"].append({"cache_ttl": rng.choice(["7m", "0s", "1h"])})
     elif kind in ("remoteAuthorizer", "genericContextualizer"):
-        ep = gen_endpoint(rng, True, "/authz" if kind == "remoteAuthorizer" else "/ctx")
+        # what the remote system answers with: JSON, YAML (integers), a form (lists of strings), plain text, nothing
+        m["ct"] = rng.choice(["json", "json", "yaml", "form", "text", "empty"])
+        ep = gen_endpoint(rng, True, ("/authz" if kind == "remoteAuthorizer" else "/ctx") +
+                          ("" if m["ct"] == "json" else "/ct-" + m["ct"]))
         m["ep"] = ep
         vals = {k: gen_tpl(rng, ["sid", "hdr", "out"], outs=["o1"], safe=True) for k in rng.sample(["a", "b", "c", "ab"], rng.choice([0, 1, 2, 3]))}
         m["values"] = vals
         m["payload"] = gen_tpl(rng, ["sid", "val", "hdr"], vals=vals.keys(), safe=True)
-        m["ttl"] = rng.choice(["10m", "5m"])
+        m["ttl"] = rng.choice(["10m", "5m", "10m", "0s"])
         if kind == "remoteAuthorizer":
             m["fwd_resp"] = rng.sample(["X-R1", "X-R2"], rng.choice([0, 1, 2]))
-            m["expr"] = rng.choice([None, 1, 2, 2, 3])
+            m["expr"] = rng.choice([None, 1, 2, 2, 3, "mod", "type", "idx"])
         else:
             m["fwd_headers"] = rng.sample(NAMES, rng.choice([0, 1, 2]))
             m["fwd_cookies"] = rng.sample(COOKIES, rng.choice([0, 1, 2]))
@@ -463,12 +471,23 @@ def gen_mech(rng, kind):
             elif r < 0.5:
                 o["payload"] = gen_tpl(rng, ["sid", "hdr"], safe=True)
             elif r < 0.6:
-                o["cache_ttl"] = rng.choice(["7m", "1h"])
+                o["cache_ttl"] = rng.choice(["7m", "1h", "0s"])
             elif kind == "remoteAuthorizer":
-                o["expr"] = rng.choice([1, 2, 3])
+                o["expr"] = rng.choice([1, 2, 3, "mod", "type", "idx"])
             else:
                 o["fwd_headers"] = rng.sample(NAMES, rng.choice([1, 2]))
             m["overrides"].append(o)
+    elif kind == "ccFinalizer":
+        m["token_url"] = SRV + "/token"
+        m["client_id"] = rng.choice(["ab", "a", "c1"])
+        m["client_secret"] = rng.choice(["c", "bc", "s"])
+        m["scopes"] = [rng.choice(["a", "b", "ab"]) for _ in range(rng.choice([0, 1, 2]))]
+        m["ttl"] = rng.choice([None, "10m"])
+        for _ in range(rng.choice([1, 2, 3])):
+            if rng.random() < 0.75:
+                m["overrides"].append({"scopes": [rng.choice(["a", "b", "ab", "c"]) for _ in range(rng.choice([1, 2]))]})
+            else:
+                m["overrides"].append({"cache_ttl": rng.choice(["7m", "0s"])})
     elif kind == "jwtFinalizer":
         m["iss"] = rng.choice(["iss1", "heimdall", None])
         m["ttl"] = rng.choice(["5m", "10m", None])
@@ -490,8 +509,14 @@ def gen_claims(rng):
     return parts
 
 
+EXPRS = {"mod": "Payload.level % 2 == 1", "type": "type(Payload.level) == int", "idx": 'Payload.roles[0] == "a"'}
+
+
 def expr_conf(level):
-    return [{"expression": "Payload.level >= %d" % level, "message": "level too low"}]
+    """an integer: `level >= n`; otherwise an expression that looks at the type of the payload"""
+    if isinstance(level, int):
+        return [{"expression": "Payload.level >= %d" % level, "message": "level too low"}]
+    return [{"expression": EXPRS[level], "message": "payload not as expected"}]
 
 
 def mech_conf(m):
@@ -534,6 +559,13 @@ def mech_conf(m):
                 c["forward_headers"] = list(m["fwd_headers"])
             if m["fwd_cookies"]:
                 c["forward_cookies"] = list(m["fwd_cookies"])
+        return c
+    if kind == "ccFinalizer":
+        c = {"token_url": m["token_url"], "client_id": m["client_id"], "client_secret": m["client_secret"]}
+        if m["scopes"]:
+            c["scopes"] = list(m["scopes"])
+        if m["ttl"]:
+            c["cache_ttl"] = m["ttl"]
         return c
     if kind == "jwtFinalizer":
         signer = {"key_store": {"path": "KEYFILE"}}
@@ -580,7 +612,7 @@ def effective(m, oi):
                 e["ttl"] = v
             elif k == "assertions":
                 e["scopes"] = v["scopes"]
-            elif k in ("payload", "claims", "expr", "fwd_headers"):
+            elif k in ("payload", "claims", "expr", "fwd_headers", "scopes"):
                 e[k] = v
     return e
 
@@ -594,20 +626,23 @@ def dur_ns(s, default=0):
 
 
 def sub_env(obs):
-    return {"fn": "subject", "env": {"str": {"json.Marshal(s)": obs}}}
+    return {"fn": "subject", "env": {"str": {"json.Marshal(recv)": obs}}}
 
 
 def mech_env(m, oi, step, srv, obs):
-    """values read by the key function of the mechanism for this step; obs: what the harness observed for the opaque
-    serialisations (subject JSON, outputs JSON, signer key)"""
+    """values read by the key function of the mechanism for this step, keyed by the normalised Go expressions (see
+    Spec/CacheDeps.lean); obs: what the harness observed for the opaque serialisations (subject JSON, outputs JSON,
+    signer key)"""
     kind = m["kind"]
     e = effective(m, oi)
+    hdr = "arg0.Request().Header(_) for recv.fwdHeaders"
+    ck = "arg0.Request().Cookie(_) for recv.fwdCookies"
     if kind == "genericAuthenticator":
         token = header_of(step, "X-Token").strip()
-        return {"sub": {"a.e.Hash()": {"fn": "endpoint", "env": endpoint_env(m["ep"], srv)}},
-                "str": {"a.id": hx(m["id"]), "reference": hx(token)},
-                "lst": {"ctx.Request().Header(name) for a.fwdHeaders": [hx(header_of(step, n)) for n in m["fwd_headers"]],
-                        "ctx.Request().Cookie(name) for a.fwdCookies": [hx(step["cookies"].get(n, "")) for n in m["fwd_cookies"]]}}
+        return {"sub": {"recv.e.Hash()": {"fn": "endpoint", "env": endpoint_env(m["ep"], srv)}},
+                "str": {"recv.id": hx(m["id"]), "arg1": hx(token)},
+                "lst": {hdr: [hx(header_of(step, n)) for n in m["fwd_headers"]],
+                        ck: [hx(step["cookies"].get(n, "")) for n in m["fwd_cookies"]]}}
     if kind in ("introspection", "jwtAuthenticator"):
         if kind == "introspection":
             defaults, md = {"Content-Type": "application/x-www-form-urlencoded", "Accept": "application/json"}, "POST"
@@ -619,40 +654,43 @@ def mech_env(m, oi, step, srv, obs):
         url = m["ep"]["url"].replace(SRV, srv)
         if kind == "jwtAuthenticator":
             url = url.replace("{{.TokenIssuer}}", parts[3] if len(parts) > 3 else "issuer-1")
-        return {"sub": {"ep.Hash()": {"fn": "endpoint", "env": endpoint_env(m["ep"], srv, defaults, md)}},
-                "str": {"a.id": hx(m["id"]), "templatedURL": hx(url), "renderedURL": hx(url), "token": hx(ref),
-                        "reference": hx(ref)}}
+        return {"sub": {"arg0.Hash()": {"fn": "endpoint", "env": endpoint_env(m["ep"], srv, defaults, md)}},
+                "str": {"recv.id": hx(m["id"]), "arg1": hx(url), "arg2": hx(ref)}}
     if kind in ("remoteAuthorizer", "genericContextualizer"):
         vals = {k: tpl_render(v, step) for k, v in (e.get("values") or {}).items()}
         payload = tpl_render(e["payload"], step, vals)
-        p = "a" if kind == "remoteAuthorizer" else "h"
-        env = {"sub": {p + ".e.Hash()": {"fn": "endpoint", "env": endpoint_env(m["ep"], srv)},
-                       "sub.Hash()": sub_env(obs["json.Marshal(s)"])},
-               "str": {p + ".id": hx(m["id"]), "payload": hx(payload)},
-               "num": {p + ".ttl": dur_ns(e["ttl"])},
-               "map": {"values": [[hx(k), hx(v)] for k, v in vals.items()]}, "lst": {}}
-        if kind == "remoteAuthorizer":
-            env["lst"]["a.headersForUpstream"] = [hx(x) for x in m["fwd_resp"]]
+        ra = kind == "remoteAuthorizer"
+        env = {"sub": {"recv.e.Hash()": {"fn": "endpoint", "env": endpoint_env(m["ep"], srv)},
+                       ("arg0.Hash()" if ra else "arg1.Hash()"): sub_env(obs["json.Marshal(s)"])},
+               "str": {"recv.id": hx(m["id"]), ("arg2" if ra else "arg3"): hx(payload)},
+               "num": {"recv.ttl": dur_ns(e["ttl"])},
+               "map": {("arg1" if ra else "arg2"): [[hx(k), hx(v)] for k, v in vals.items()]}, "lst": {}}
+        if ra:
+            env["lst"]["recv.headersForUpstream"] = [hx(x) for x in m["fwd_resp"]]
         else:
             fh, fc = e["fwd_headers"], m["fwd_cookies"]
-            env["lst"]["h.fwdHeaders"] = [hx(x) for x in fh]
-            env["lst"]["h.fwdCookies"] = [hx(x) for x in fc]
-            env["lst"]["ctx.Request().Header(name) for h.fwdHeaders"] = [hx(header_of(step, n)) for n in fh]
-            env["lst"]["ctx.Request().Cookie(name) for h.fwdCookies"] = [hx(step["cookies"].get(n, "")) for n in fc]
+            env["lst"]["recv.fwdHeaders"] = [hx(x) for x in fh]
+            env["lst"]["recv.fwdCookies"] = [hx(x) for x in fc]
+            env["lst"][hdr] = [hx(header_of(step, n)) for n in fh]
+            env["lst"][ck] = [hx(step["cookies"].get(n, "")) for n in fc]
         return env
     if kind == "jwtFinalizer":
-        lbl = "f.claims.Hash() if f.claims != nil"
-        env = {"sub": {"f.signer.Hash()": {"fn": "jwtSigner", "env": {"str": {
-            "jwk.KeyID": obs["jwk.KeyID"], "jwk.Algorithm": obs["jwk.Algorithm"], "s.iss": obs["s.iss"],
-            "jwk.Thumbprint(crypto.SHA256)": obs.get("jwk.Thumbprint(crypto.SHA256)", "")}}},
-            "sub.Hash()": sub_env(obs["json.Marshal(s)"])},
-            "str": {"json.Marshal(ctx.Outputs())": obs["json.Marshal(ctx.Outputs())"]},
-            "num": {"f.ttl": dur_ns(e["ttl"], 300 * 10 ** 9)}, "has": {lbl: e["claims"] is not None}}
+        lbl = "recv.claims.Hash() if recv.claims != nil"
+        env = {"sub": {"recv.signer.Hash()": {"fn": "jwtSigner", "env": {"str": {
+            "recv.jwk.KeyID": obs["jwk.KeyID"], "recv.jwk.Algorithm": obs["jwk.Algorithm"],
+            "recv.iss": hx(m["iss"] or "heimdall"),
+            "recv.jwk.Thumbprint(crypto.SHA256)": obs.get("jwk.Thumbprint(crypto.SHA256)", "")}}},
+            "arg1.Hash()": sub_env(obs["json.Marshal(s)"])},
+            "str": {"json.Marshal(arg0.Outputs())": obs["json.Marshal(ctx.Outputs())"]},
+            "num": {"recv.ttl": dur_ns(e["ttl"], 300 * 10 ** 9)}, "has": {lbl: e["claims"] is not None}}
         if e["claims"] is not None:
-            env["sub"][lbl] = {"fn": "template", "env": {"str": {"val": hx(tpl_go(e["claims"]))}}}
+            env["sub"][lbl] = {"fn": "template", "env": {"str": {"arg0": hx(tpl_go(e["claims"]))}}}
         else:
             env["str"][lbl] = ""
         return env
+    if kind == "ccFinalizer":
+        return cc_env(dict(token_url=m["token_url"].replace(SRV, srv), client_id=m["client_id"],
+                           client_secret=m["client_secret"], scopes=e["scopes"]))
     raise ValueError(kind)
 
 
@@ -672,8 +710,8 @@ def cache_of(m, oi):
     kind = m["kind"]
     if kind == "jwtFinalizer":
         return True, 10 ** 6
-    if kind in ("introspection", "jwtAuthenticator"):
-        return True, 10 ** 6
+    if kind in ("introspection", "jwtAuthenticator", "ccFinalizer"):
+        return (False, 0) if e.get("ttl") == "0s" else (True, 10 ** 6)
     ns = dur_ns(e["ttl"])
     return ns > 0, 10 ** 6 if ns > 0 else 0
 
@@ -695,10 +733,14 @@ def gen_history(rng, kind, nsteps=None):
         r = rng.random()
         if steps and r < 0.35:
             s = copy.deepcopy(rng.choice(steps))          # identical request (possibly under another rule)
+            s.pop("_mut", None)
         elif steps and r < 0.7:
-            s = mutate_step(rng, copy.deepcopy(rng.choice(steps)), kind, names, m.get("fwd_cookies") or [])
+            s = copy.deepcopy(rng.choice(steps))
+            s.pop("_mut", None)
+            s = mutate_step(rng, s, kind, names, m.get("fwd_cookies") or [])
         else:
             s = copy.deepcopy(rng.choice(pool))
+        s.setdefault("_mut", "repeat" if steps and r < 0.35 else "variant" if steps and r < 0.7 else "pool")
         s["override"] = rng.randrange(len(m["overrides"]) + 1) if rng.random() < 0.7 else s.get("override", 0)
         s.pop("rotate", None)
         if kind == "jwtFinalizer" and steps and rng.random() < 0.12:
@@ -707,8 +749,40 @@ def gen_history(rng, kind, nsteps=None):
     return m, steps
 
 
+def shift_step(rng, s, names, cookies):
+    """move one character across the boundary of two neighbouring inputs of the request (credential, forwarded header
+    and cookie values, subject id)"""
+    slots = [("h", "X-Token")] + [("h", n) for n in sorted(set(names))] + [("c", c) for c in sorted(set(cookies))] + [("s", "id")]
+
+    def get(sl):
+        return s["subject"]["id"] if sl[0] == "s" else s["headers" if sl[0] == "h" else "cookies"].get(sl[1], "")
+
+    def put(sl, v):
+        if sl[0] == "s":
+            s["subject"] = dict(s["subject"], id=v)
+        else:
+            s["headers" if sl[0] == "h" else "cookies"][sl[1]] = v
+    if len(slots) < 2:
+        return s
+    i = rng.randrange(len(slots) - 1)
+    a, b = slots[i], slots[i + 1]
+    va, vb = get(a), get(b)
+    if va.startswith("JWT:") or vb.startswith("JWT:"):
+        return s
+    if va:
+        put(a, va[:-1])
+        put(b, va[-1] + vb)
+    elif vb:
+        put(a, va + vb[0])
+        put(b, vb[1:])
+    return s
+
+
 def mutate_step(rng, s, kind, names, cookies):
     r = rng.random()
+    if rng.random() < 0.12:
+        s["_mut"] = "shift"
+        return shift_step(rng, s, names, cookies)
     if r < 0.3 and "X-Token" in s["headers"] and kind != "jwtAuthenticator":
         s["headers"]["X-Token"] = s["headers"]["X-Token"] + rng.choice(["x", "~s1", "+s2"])
     elif r < 0.3 and kind == "jwtAuthenticator":
@@ -743,7 +817,7 @@ def mutate_step(rng, s, kind, names, cookies):
 
 
 def harness_steps(steps):
-    return [dict({"headers": s["headers"], "cookies": s["cookies"], "subject": s["subject"], "outputs": s["outputs"],
+    return [dict({"headers": s["headers"], "cookies": s["cookies"], "subject": s["subject"], "outputs": s.get("outputs", {}),
                   "override": s.get("override", 0)}, **({"rotate": True} if s.get("rotate") else {})) for s in steps]
 
 
